@@ -13,7 +13,7 @@ import (
 
 func TestC03Delivery(t *testing.T) {
 	e := vrun.LoadEnv()
-	meta := vrun.Meta{Property: "C03", Workload: "TestC03Delivery", Total: e.Pick(200, 4000),
+	meta := vrun.Meta{Property: "C03", Workload: "TestC03Delivery", Total: e.Pick(200, 20000),
 		Rule: "each case: 1-6 upstreams, 1-8 data ids (0..n pre-registered), 20-400 chunks sent by the broker; per chunk the broker chooses full or alias form (alias only once the client announced it; full form stays allowed afterwards), 0/2/5% poisoned chunks (never-announced upstream or data-id alias), QoS reliable/unreliable(with and without datagram side channel)/partial, both encodings, reader eager or bursty (broker keeps < 256 unconsumed items in flight), 0-29 metadata items over 1-3 source nodes. Oracle: the sequence of ReadDataPoints results equals the broker's intended sequence (upstream info, sequence number, data ids, elapsed times, payload hashes), poisoned chunks yield an error; metadata per source in order exactly once with one DownstreamMetadataAck per item. non-trivial = >=20 chunks read and at least one chunk in alias form resolved; distinct = scenario tuple x alias-form pattern hash",
 		Assumptions: []string{"the in-memory datagram side channel is loss-free and ordered, so the full once/in-order oracle applies to unreliable QoS as well",
 			"the broker's alias table is built only from what the client announced (open request, DownstreamChunkAck)"}}
